@@ -379,7 +379,7 @@ def shards(tier: str) -> list:
         for psk in (0, 1):
             out.append({"fn": "h03c_gate", "env": {"PSK": psk, "CUTS": 1}, "cond_timeout": 400, "path_timeout": 60,
                         "desc": f"connection-level gating, key {psk}, server opening cut at one position anywhere"})
-        for lo, hi in ((1, 6), (7, 14), (15, 24), (25, 38), (39, 9999)):
+        for lo, hi in ((1, 3), (4, 7), (8, 12), (13, 18), (19, 26), (27, 38), (39, 9999)):
             out.append({"fn": "h03c_gate", "env": {"PSK": 0, "CUTS": 2, "CLO": lo, "CHI": hi}, "cond_timeout": 1200, "path_timeout": 60,
                         "desc": f"connection-level gating, server opening cut at every pair of positions with the first cut in [{lo},{hi}]"})
     return out
